@@ -329,11 +329,36 @@ static int probe_publish() {
     printf("{\"resume_aborts_clear\":%d,\"enqueue_aborts_clear\":%d,\"clear_checked\":%d,\"rc\":\"%s\"}\n", fact_resume, fact_enqueue, fact_clear_checked, rc_name(rc).c_str());
     return 0;
 }
+// probe_mandatory: does arena::out_of_work take the mandatory request back when it clears my_mandatory_concurrency although the task pools are NOT empty (the pool
+// state stays set)?  Mandatory.tla needs that fact (constant REPORT_EITHER).  Directed: only the external thread is stepped (library-created workers stay parked at
+// their first schedule point until the end); inside the arena it spawns a task into its own pool (has_tasks() is true), switches mandatory concurrency on the way
+// an enqueue does (advertise_new_work<work_enqueued>, nothing in the stream) and calls out_of_work() itself.
+static int probe_mandatory() {
+    using vh::rawload; int r0 = -9, r1 = -9, r2 = -9, fl1 = -1, fl2 = -1, pool2 = -1;
+    Sched S; focus_only(false); S.stall_limit = 100000000;
+    S.spawn(1, [&](int) {
+        tbb::task_arena ar(2, 1); ar.initialize(); r1::arena* a = rawload(ar.my_arena);
+        r0 = a->my_mandatory_requests;
+        ar.execute([&] { tbb::task_group tg; tg.run([] {});
+            a->advertise_new_work<r1::arena::work_enqueued>();
+            r1 = a->my_mandatory_requests; fl1 = a->my_mandatory_concurrency.test() ? 1 : 0;
+            a->out_of_work();
+            r2 = a->my_mandatory_requests; fl2 = a->my_mandatory_concurrency.test() ? 1 : 0; pool2 = a->my_pool_state.test() ? 1 : 0;
+            tg.wait(); });
+    });
+    long n = 0; while (!S.done(0) && n < 5000000 && S.runnable(0)) { S.step(0); ++n; }
+    bool fin = S.done(0); int rc = fin ? S.finish(20000000) : RC_STALL; S.join_all();
+    // conclusive only if the directed state was reached: request counted, flag set, then the flag cleared while the pool state stayed set
+    int fact = (fin && r0 == 0 && r1 == 1 && fl1 == 1 && fl2 == 0 && pool2 == 1) ? (r2 == 0 ? 1 : (r2 == 1 ? 0 : -1)) : -1;
+    printf("{\"report_either\":%d,\"r\":[%d,%d,%d],\"flag\":[%d,%d],\"pool\":%d,\"rc\":\"%s\"}\n", fact, r0, r1, r2, fl1, fl2, pool2, rc_name(rc).c_str());
+    return 0;
+}
 struct Stats { long paths, steps, stuck, sleeps, wakes, buffered, workers; };
 int main(int argc, char** argv) {
     if (argc >= 2 && !strcmp(argv[1], "probe")) return probe();
     if (argc >= 2 && !strcmp(argv[1], "probe_exec")) return probe_exec();
     if (argc >= 2 && !strcmp(argv[1], "probe_publish")) return probe_publish();
+    if (argc >= 2 && !strcmp(argv[1], "probe_mandatory")) return probe_mandatory();
     if (argc < 6) { fprintf(stderr, "usage\n"); return 2; }
     FILE* out = fopen(argv[1], "w"); std::string sc = argv[2]; int nseeds = atoi(argv[3]); unsigned long seed0 = strtoul(argv[4], nullptr, 10); bool tso = atoi(argv[5]) != 0;
     Stats* st = (Stats*)mmap(nullptr, sizeof(Stats), PROT_READ | PROT_WRITE, MAP_SHARED | MAP_ANONYMOUS, -1, 0); memset(st, 0, sizeof *st);
